@@ -51,7 +51,7 @@ static std::string gkf2d(const Spec2& s, const std::vector<Real>& vals) {
   return o.str();
 }
 
-struct B2 { Spec2 spec; Net net; std::vector<Observation*> obs; std::vector<Real> err, val; Oracle orc; std::vector<int> S; std::vector<StandPoint*> sps; };
+struct B2 { Spec2 spec; Net net; std::vector<Observation*> obs; std::vector<Real> err, val; Oracle orc; std::vector<int> S; std::vector<StandPoint*> sps; std::vector<int> passive; /* observations excluded by the user */ };
 
 // observed values: true value + error
 static std::vector<Real> true_values(const Spec2& s, const std::vector<Real>& err, const std::vector<Real>* circle_turn = nullptr) {
@@ -86,6 +86,7 @@ static bool build2d(B2& b, const Spec2& spec, const std::vector<Real>& err, cons
   b.obs = b.net.all_obs();
   if (b.obs.size() != b.val.size()) { sx::fail("parser produced a different number of observations", std::to_string(b.obs.size())); return false; }
   for (size_t k = 0; k < b.obs.size(); k++) b.obs[k]->set_value(b.val[k]);
+  for (int k : b.passive) b.obs[k]->set_passive();
   for (auto c = b.net.IS->OD.clusters.begin(); c != b.net.IS->OD.clusters.end(); ++c) b.sps.push_back(dynamic_cast<StandPoint*>(*c));
   b.net.prepare(alg, true);
   return true;
@@ -102,7 +103,8 @@ static void make_oracle2d(B2& b, const std::string& tag) {
     for (auto& ob : st.obs) { if (ob.kind == 0) dirs = true;
       for (int p : {st.from, ob.to, ob.kind == 2 ? ob.to2 : ob.to}) if (freept(p)) { touch(s.pts[p].id, 'X'); touch(s.pts[p].id, 'Y'); } }
     if (dirs) touch(s.pts[st.from].id, 'R'); si++; }
-  int m = (int)b.obs.size(), n = (int)o.unk.size();
+  auto is_passive = [&](int k) { return std::find(b.passive.begin(), b.passive.end(), k) != b.passive.end(); };
+  int m = (int)b.obs.size() - (int)b.passive.size(), n = (int)o.unk.size();
   o.A = QMat(m, n); o.l.assign(m, sx::rat(0)); o.P = QMat(m, m);
   mpq_class K = ANGQ();
   auto brg = [&](int r, int i, int j, Q sign) {            // d(bearing i->j): target -dy/d^2, dx/d^2 ; station opposite; times K
@@ -110,9 +112,9 @@ static void make_oracle2d(B2& b, const std::string& tag) {
     int c;
     if ((c = o.col(s.pts[j].id, 'X')) >= 0 && freept(j)) o.A(r, c) += sign * K * (-dy) / d2; if ((c = o.col(s.pts[j].id, 'Y')) >= 0 && freept(j)) o.A(r, c) += sign * K * dx / d2;
     if ((c = o.col(s.pts[i].id, 'X')) >= 0 && freept(i)) o.A(r, c) += sign * K * dy / d2;    if ((c = o.col(s.pts[i].id, 'Y')) >= 0 && freept(i)) o.A(r, c) += sign * K * (-dx) / d2; };
-  int r = 0; si = 0;
+  int r = 0, kk = -1; si = 0;
   for (auto& st : s.st) { StandPoint* sp = b.sps[si];
-    for (auto& ob : st.obs) {
+    for (auto& ob : st.obs) { kk++; if (is_passive(kk)) continue;
       o.P(r, r) = (s.sigma_apr / ob.stdev) * (s.sigma_apr / ob.stdev);
       if (ob.kind == 0) {
         brg(r, st.from, ob.to, 1); o.A(r, o.col(s.pts[st.from].id, 'R')) = -1;
@@ -120,14 +122,14 @@ static void make_oracle2d(B2& b, const std::string& tag) {
         Real dz = o0 - sx::constant(st.zero);             // approximate minus true orientation, up to a full turn
         { sx::f64 k = ::round(sx::numeric0(dz) / (2 * M_PI)); if (k != 0) dz = dz - Real(k) * two_pi(); }
         sx::check_le(dz, sx::rat(1, 100), tag + " approximate orientation of " + s.pts[st.from].id + " is near the true one"); sx::check_le(-dz, sx::rat(1, 100), tag + " approximate orientation of " + s.pts[st.from].id + " is near the true one");
-        Real turned = b.val[r] - (norm2pi(bearing(s, st.from, ob.to) - sx::constant(st.zero)) + b.err[r]);      // the circle turn applied to this set (0 unless a variant turns it)
-        o.l[r] = to_cc(b.err[r] + dz + turned);
+        Real turned = b.val[kk] - (norm2pi(bearing(s, st.from, ob.to) - sx::constant(st.zero)) + b.err[kk]);      // the circle turn applied to this set (0 unless a variant turns it)
+        o.l[r] = to_cc(b.err[kk] + dz + turned);
       } else if (ob.kind == 1) {
         Q dx = s.pts[ob.to].x - s.pts[st.from].x, dy = (s.pts[ob.to].y - s.pts[st.from].y) * s.ysign, d = dist(s, st.from, ob.to); int c;
         if ((c = o.col(s.pts[ob.to].id, 'X')) >= 0 && freept(ob.to)) o.A(r, c) = dx / d; if ((c = o.col(s.pts[ob.to].id, 'Y')) >= 0 && freept(ob.to)) o.A(r, c) = dy / d;
         if ((c = o.col(s.pts[st.from].id, 'X')) >= 0 && freept(st.from)) o.A(r, c) = -dx / d; if ((c = o.col(s.pts[st.from].id, 'Y')) >= 0 && freept(st.from)) o.A(r, c) = -dy / d;
-        o.l[r] = b.err[r] * sx::rat(1000);
-      } else { brg(r, st.from, ob.to2, 1); brg(r, st.from, ob.to, -1); o.l[r] = to_cc(b.err[r]); }
+        o.l[r] = b.err[kk] * sx::rat(1000);
+      } else { brg(r, st.from, ob.to2, 1); brg(r, st.from, ob.to, -1); o.l[r] = to_cc(b.err[kk]); }
       r++; }
     si++; }
   b.S.clear(); for (size_t c = 0; c < o.unk.size(); c++) { for (auto& p : s.pts) if (p.id == o.unk[c].first && p.st == 'c' && o.unk[c].second != 'R') b.S.push_back((int)c); }
@@ -139,6 +141,7 @@ static std::string uname(LocalNetwork* IS, int i) { return IS->unknown_pointid(i
 static R2 run2d(B2& b, bool cof) {
   R2 r; LocalNetwork* IS = b.net.IS.get();
   try {
+    if (IS->huge_abs_terms()) IS->remove_huge_abs_terms();        // as gama-local's main() does before the adjustment
     int d = IS->null_space();
     try { if (IS->min_n() < d) throw MatVecException(GNU_gama::Exception::BadRegularization, "not enough constrained points"); IS->trans_VWV(); }
     catch (const MatVecException& vs) { if (vs.error() != GNU_gama::Exception::BadRegularization) throw; r.why = "network can not be adjusted"; return r; }
@@ -245,9 +248,10 @@ static void case_datum(const Spec2& spec, int alg, const std::vector<std::string
 }
 
 // C09: statistics of a plane network against the oracle (a priori reference deviation: m0 constant, so that a >= b is decided)
-static void case_stats(const Spec2& spec, int alg, bool aposteriori) {
+static void case_stats(const Spec2& spec, int alg, bool aposteriori, int passive = -1) {
   std::vector<Real> err = sym_errors(spec);
-  B2 b; if (!build2d(b, spec, err, ALGS[alg])) return; std::string tag = std::string(ALGS[alg]) + (aposteriori ? " a posteriori" : " a priori");
+  B2 b; if (passive >= 0) b.passive.push_back(passive);
+  if (!build2d(b, spec, err, ALGS[alg])) return; std::string tag = std::string(ALGS[alg]) + (aposteriori ? " a posteriori" : " a priori") + (passive >= 0 ? " observation " + std::to_string(passive + 1) + " excluded" : "");
   make_oracle2d(b, tag); Oracle& o = b.orc; LocalNetwork* IS = b.net.IS.get(); if (!o.resolves) return;
   if (aposteriori) IS->set_m_0_aposteriori(); else IS->set_m_0_apriori();
   R2 r = run2d(b, true); sx::check_true(r.ok, tag + " adjusted", r.why); if (!r.ok) return;
@@ -317,8 +321,12 @@ static void gen_cases(const sx::Options& opt, std::vector<sx::Case>& cases) {
     for (auto& s : freen) { auto sp = std::make_shared<Spec2>(s); add("net2d/oracle/" + s.name, "plane networks", [sp] { case_oracle(*sp); }); }
     if (th) for (auto& s : fixed) { auto sp = std::make_shared<Spec2>(s); add("net2d/oracle-decreasing/" + s.name, "plane networks", [sp] { g_reverse_order = true; try { case_oracle(*sp); } catch (...) { g_reverse_order = false; throw; } g_reverse_order = false; }); } }
   if (on("C06")) { int k = 0; for (auto& s : fixed) for (int omit = 0; omit < 2; omit++) { int alg = (k++) % 3; auto sp = std::make_shared<Spec2>(s); add("net2d/consistent/" + s.name + "/" + ALGS[alg] + (omit ? "/acord" : "/given"), "plane networks", [sp, alg, omit] { case_consistent(*sp, alg, omit != 0); }); } }
-  if (on("C07")) { int k = 0; for (auto& s : fixed) for (int v : {2, 3, 10, 11, 12, 13, 14}) { if (v >= 10 && v - 10 >= (int)s.st.size()) continue; if (!th && v >= 10 && v != 10 && v != 12) continue; int alg = (k++) % 3; auto sp = std::make_shared<Spec2>(s); add("net2d/equiv/" + s.name + "/" + ALGS[alg] + "/variant" + std::to_string(v), "plane networks", [sp, alg, v] { case_equiv(*sp, alg, v); }); } }
-  if (on("C09")) { int k = 0; for (auto& s : fixed) for (int ap = 0; ap < 2; ap++) { int alg = (k++) % 3; auto sp = std::make_shared<Spec2>(s); add("net2d/stats/" + s.name + "/" + ALGS[alg] + (ap ? "/aposteriori" : "/apriori"), "plane networks", [sp, alg, ap] { case_stats(*sp, alg, ap != 0); }); } }
+  if (on("C07")) { int k = 0; for (auto& s : fixed) for (int v : {2, 3, 10, 11, 12, 13, 14}) { if (v >= 10 && v - 10 >= (int)s.st.size()) continue; if (!th && v >= 10 && v != 10 && v != 12) continue; int alg = (k++) % 3; auto sp = std::make_shared<Spec2>(s); bool rev = (v >= 10) && ((v + k) % 2 == 0);      // the errors of the sets in decreasing order for every other turned set
+      add("net2d/equiv/" + s.name + "/" + ALGS[alg] + "/variant" + std::to_string(v) + (rev ? "-decreasing" : ""), "plane networks", [sp, alg, v, rev] { g_reverse_order = rev; try { case_equiv(*sp, alg, v); } catch (...) { g_reverse_order = false; throw; } g_reverse_order = false; }); } }
+  if (on("C09")) { int k = 0; for (auto& s : fixed) for (int ap = 0; ap < 2; ap++) { int alg = (k++) % 3; auto sp = std::make_shared<Spec2>(s); add("net2d/stats/" + s.name + "/" + ALGS[alg] + (ap ? "/aposteriori" : "/apriori"), "plane networks", [sp, alg, ap] { case_stats(*sp, alg, ap != 0); }); }
+    // one observation inside a station's cluster excluded by the user (clusters here are uncorrelated with differing standard deviations)
+    for (auto& s : fixed) for (int pk : {1, 5}) { if (!th && pk == 5 && &s != &fixed[0]) continue; int alg = (k++) % 3; auto sp = std::make_shared<Spec2>(s);
+      add("net2d/stats-excluded/" + s.name + "/" + ALGS[alg] + "/obs" + std::to_string(pk), "plane networks", [sp, alg, pk] { case_stats(*sp, alg, false, pk); }); } }
   if (on("C20")) {
     std::vector<Spec2> ill;
     // (networks whose point-removal loop reaches LocalNetwork::singular_coords with an all-zero column are left out: the code computes
